@@ -357,6 +357,55 @@ def run_cases(res, cases, model_exe):
     return disagreements, oracle_fail, n_eval, known_hits
 
 
+def decode_error_part(viol):
+    """the decode path of JSON payloads at run time: an undecodable body is an error for the declared variant's caller,
+    never a panic, whatever text surrounds the error position (multi-byte characters included)"""
+    import arena
+    spec = make_spec([("200", [("application/json", REF_PET)]), ("503", [("application/json", REF_ERR)])])
+    d = vlib.scratch("C04d")
+    sp = os.path.join(d, "spec.json")
+    json.dump(spec, open(sp, "w"))
+    out = os.path.join(d, "out")
+    rc, txt = vlib.oas(["generate", "client-mod", "-i", sp, "-o", out, "-q"])
+    if rc != 0:
+        viol.append(("decode-errors", f"decode-error probe: generation failed {txt[-200:]}"))
+        return 0
+    cyr = "\u043f\u0440\u0438\u0432\u0435\u0442 \u043c\u0438\u0440 "
+    bodies = [(200, '{"name": "ok"}', True), (200, '{"name": ', False), (200, '{"name": "' + cyr * 3 + '" "x"}', False), (503, '{"message": "' + cyr * 4, False),
+              (200, '{"' + cyr + '": tru}', False), (503, cyr, False), (200, '[' + ('"\u65e5\u672c\u8a9e",' * 6) + ']', False), (200, '{"name": "\U0001F680\U0001F680\U0001F680" 1}', False)]
+    for pad in range(0, 6):
+        bodies.append((200, '{"name": "' + "x" * pad + cyr * 2 + '" ?}', False))
+    lits = ", ".join(f"({st}u16, {json.dumps(b, ensure_ascii=False)}, {str(okv).lower()})" for st, b, okv in bodies)
+    ar = arena.Arena("c04d")
+    ar.add_case(0, out)
+    ar.write_main('''fn main() {
+    let rt = tokio::runtime::Builder::new_multi_thread().worker_threads(1).enable_all().build().unwrap();
+    let cases: Vec<(u16, &str, bool)> = vec![%s];
+    for (k, (st, body, _)) in cases.iter().enumerate() {
+        let resp = http::Response::builder().status(*st).header("content-type", "application/json").body(body.to_string()).unwrap();
+        let resp = reqwest::Response::from(resp);
+        let h = rt.spawn(async move { case_0::GetXRequest::parse_response(resp).await.map(|v| format!("{:?}", v).split('(').next().unwrap().to_string()).map_err(|e| format!("{:#}", e).len()) });
+        match rt.block_on(h) {
+            Ok(Ok(v)) => println!("{}\tOK\t{}", k, v),
+            Ok(Err(_)) => println!("{}\tERR", k),
+            Err(_) => println!("{}\tPANIC", k),
+        }
+    }
+}
+''' % lits)
+    ok, diags, err = ar.cargo("build")
+    if not ok:
+        viol.append(("decode-errors", f"decode-error probe does not build: {(diags[0]['message'] if diags else err)[:300]}"))
+        return 0
+    rc, so, se = ar.run("", timeout=120)
+    got = {int(l.split("\t")[0]): l.split("\t")[1:] for l in so.strip().split("\n") if "\t" in l}
+    for k, (st, b, okv) in enumerate(bodies):
+        o = got.get(k, ["missing"])
+        if (okv and o[0] != "OK") or (not okv and o[0] != "ERR"):
+            viol.append(("decode-errors", f"decode-error probe: status {st} body {b[:60]!r}: parse_response {'panicked' if o[0] == 'PANIC' else 'returned ' + ' '.join(o)}, expected {'the declared variant' if okv else 'a decode error'}"))
+    return len(bodies)
+
+
 def main(tier, seed, replay=None):
     res = Result("C04", tier, seed)
     load_http_consts()
@@ -394,13 +443,19 @@ def main(tier, seed, replay=None):
         "coq/Model/Responses.v: hand model of converter/responses.rs + semantics of the emitted if-chain",
     ]
     res.assumptions = ["response keys within {100..599, 1XX..5XX, default} for the theorem; other keys only through correspondence",
-                       "body decoding (serde_json / reqwest) is not modelled: extraction kind only"]
+                       "body decoding (serde_json / reqwest) is not modelled: extraction kind only, plus a run-time probe that undecodable JSON bodies (ASCII and multi-byte text around the error position) give an error and never a panic"]
+    # ---- the decode path at run time (errors, never panics)
+    dviol = []
+    n_dec = decode_error_part(dviol)
+    res.counts["decode_error_probes"] = n_dec
+    for (_, dsc) in dviol[:3]:
+        res.violation(dsc, {"part": "decode-errors"})
     # ---- verdict
     for (i, code, ct, v, src, chain) in ofail[:3]:
         res.violation(f"status {code} content-type {ct}: emitted parser returns variant {v} (declared for '{src}'), expected one of {chain}",
                       {"case": cases[i], "status": code, "content_type": ct, "got_variant": v, "expected_keys": chain})
     broken = [o for o in res.obligations if not o[1]]
-    if broken and not ofail:
+    if broken and not ofail and not dviol:
         # proof/tie broken and no concrete failing input found
         res.violation("proof obligation or correspondence no longer checks: " + "; ".join(o[0] for o in broken),
                       {"broken": [[o[0], o[2]] for o in broken],
